@@ -36,6 +36,16 @@ type RelayScript struct {
 func runRelay(s RelayScript, v *vt.V) {
 	r := rec.New(nil)
 	r.Canned.Data = []byte("0123456789")
+	truthful := false
+	for _, alg := range []string{"sha256", "sha384", "sha512"} {
+		if s.Digest == string(gen.DigestOf(alg, r.Canned.Data)) {
+			// the backend serves content that really has the requested digest (under
+			// that algorithm): a complete read must then succeed and deliver it
+			truthful = true
+			r.Canned.Desc = ociregistry.Descriptor{Digest: ociregistry.Digest(s.Digest), Size: int64(len(r.Canned.Data)), MediaType: "application/octet-stream"}
+			v.Class("truthful-" + alg)
+		}
+	}
 	built, err := stack.Build(r.Registry(), s.Stack, nil)
 	if err != nil {
 		v.Failf("harness", "build: %v", err)
@@ -51,8 +61,21 @@ func runRelay(s RelayScript, v *vt.V) {
 		if err != nil {
 			return err
 		}
-		io.Copy(io.Discard, br)
-		return br.Close()
+		got, rerr := io.ReadAll(br)
+		br.Close()
+		if truthful && s.Method != "GetBlobRange" {
+			if rerr != nil {
+				return fmt.Errorf("reading content whose digest is the requested %s: %w", s.Digest, rerr)
+			}
+			if !bytes.Equal(got, r.Canned.Data) {
+				return fmt.Errorf("read %q, backend served %q", got, r.Canned.Data)
+			}
+			// (a tag read may legitimately describe the content by another algorithm's digest)
+			if d := br.Descriptor(); (s.Method != "GetTag" && string(d.Digest) != s.Digest) || d.Size != int64(len(got)) {
+				return fmt.Errorf("descriptor %v/%d for content %s/%d", d.Digest, d.Size, s.Digest, len(got))
+			}
+		}
+		return nil
 	}
 	var callErr error
 	upload := false
@@ -225,6 +248,9 @@ func genRelay(t *rapid.T) RelayScript {
 	s.Method = rapid.SampledFrom(relayMethods).Draw(t, "method")
 	s.Repo = repo("repo")
 	s.Digest = gen.ValidDigest().Draw(t, "digest")
+	if rapid.IntRange(0, 3).Draw(t, "truthfulDigest") > 0 {
+		s.Digest = string(gen.DigestOf(rapid.SampledFrom([]string{"sha256", "sha384", "sha512"}).Draw(t, "readAlg"), []byte("0123456789")))
+	}
 	switch s.Method {
 	case "GetTag", "ResolveTag", "DeleteTag":
 		s.Tag = gen.Tag().Draw(t, "tag")
